@@ -62,6 +62,36 @@ SEEDS = [
     ('dict_set_star', "a = [1, 2]; d = {'x': 1}\nprint([*a, *a], {*a}, {**d, 'y': 2}, (*a,), [*a][0])\n"),
 ]
 
+# shapes whose printing depends on the interpreter version: always run on every interpreter (C02, C08)
+VERSION_SENSITIVE = [
+    ('vs_subscript_starred', "x = a[(*b, c)]\ny = a[(*b,)]\na[(*b, c)] = 1\ndel a[(*b, c)]\n"),
+    ('vs_return_starred', "def f():\n    return (*a, b)\ndef g():\n    return (1, *a)\n"),
+    ('vs_yield_starred', "def f():\n    yield (*a, b)\n    x = yield (*a, b)\n"),
+    ('vs_augassign_starred', "x += (*a, b)\nx.y *= (1, *a)\n"),
+    ('vs_for_starred', "for x in (*a, b):\n    pass\nfor y, *z in (*a,):\n    pass\n"),
+    ('vs_assign_starred', "x = (*a, b)\nx = y = (*a,)\nx: int = (*a, b)\n"),
+    ('vs_walrus_positions', "if (n := len(a)) > 1:\n    pass\nx = [y := f(a), y ** 2]\nf(z := 1)\nf(k=(z := 1))\nwhile (c := f()):\n    pass\nprint(f'{(w := 5)}')\nx = a[(i := 0)]\nx = {(k := 1): (v := 2)}\n"),
+    ('vs_posonly', "def f(a, b=1, /, c=2, *, d=3):\n    pass\nx = lambda a, /, b: a\n"),
+    ('vs_fstring_nesting', "x = f'{a!r:>{w}} {b:{c}.{d}} {e=} {f\"{g}\"}'\ny = f'{ {1: 2}[1]} {(lambda: 1)()} {a if b else c}'\n"),
+    ('vs_fstring_pep701', "x = f'{a['k']} {f'{b}'} {'\\n'.join(c)}'\n"),
+    ('vs_match', "match a:\n    case [1, *r] | (2, *r) if r:\n        pass\n    case {'k': v, **m}:\n        pass\n    case C(x, k=1) as z:\n        pass\n    case -1 | 1 + 2j | None | 'a' 'b':\n        pass\n"),
+    ('vs_except_star', "try:\n    pass\nexcept* (A, B) as e:\n    pass\n"),
+    ('vs_type_params', "def f[T: int, *Ts, **P](a: T) -> T:\n    pass\nclass C[T]:\n    pass\ntype A[T] = list[T]\n"),
+    ('vs_type_param_defaults', "def f[T = int, *Ts = *tuple[int], **P = [int]]():\n    pass\n"),
+    ('vs_decorators', "@a.b[c](d)\ndef f():\n    pass\n@(lambda f: f)\ndef g():\n    pass\n@x if y else z\nclass C:\n    pass\n"),
+    ('vs_with_items', "with (a as b, c as d):\n    pass\nwith (a, b):\n    pass\nwith ((a, b)) as c:\n    pass\nwith (a):\n    pass\n"),
+    ('vs_dict_set_unpack', "x = {**a, 'k': 1, **b}\ny = {*a, 1, *b}\nz = [*a, *b]\nf(*a, *b, **c, **d)\n"),
+    ('vs_async_comp', "async def f():\n    x = [i async for i in a]\n    y = [await i for i in a]\n    z = {i: j async for i, j in a if await i}\n    return (i async for i in a)\n"),
+    ('vs_numbers', "x = [1_000, 0x_ff, 1e1_0, 0b1_0, 1_0j, 0o1_7, 1.5e300, 1e-300, 5e-324, 1e22, 1e21, 123456789012345678901234567890]\n"),
+    ('vs_annotations', "x: int\n(y): int = 1\na.b: int = 2\nc[0]: 'S' = 3\ndef f(a: int = 1, *b: int, c: int = 2, **d: int) -> int:\n    e: int = 4\n"),
+    ('vs_print_exec_py2', "print >>f, 'a', 'b',\nexec 'x' in g, l\nprint\n"),
+    ('vs_py2_misc', "x = `a`\ny = 10L\nz = 0777\nraise E, 'v', tb\ntry:\n    pass\nexcept E, e:\n    pass\ndef f(a, (b, c)):\n    pass\nx = a <> b\n"),
+    ('vs_global_nonlocal', "def f():\n    x = 1\n    def g():\n        nonlocal x\n        global y, z\n        x = y = z = 2\n"),
+    ('vs_lambda_forms', "f = lambda: (yield)\ng = lambda *a, k=1, **kw: a\nh = lambda x=(lambda: 1): x\n"),
+    ('vs_slices', "x = a[1:2, ::3, ...]\ny = a[::]\nz = a[b:c:d, e]\nw = a[:, 1]\n"),
+    ('vs_strings', "x = ['\\N{BULLET}', '\\ud800', b'\\x00\\xff', r'\\d', u'u', '\\x7f', 'a' \"b\", '\\0', '\\'']\n"),
+]
+
 PY2_SEEDS = [
     ('py2_print', "print 'a', 'b'\nprint >>None, 'x'\nprint\n"),
     ('py2_exec', "exec 'x=1' in {}\nexec 'y=2'\n"),
